@@ -911,7 +911,12 @@ func boundaryClass(x, k int64) string {
 	return "mid"
 }
 
-func checkCase(c sortCase) (fw.Outcome, *fw.Violation) {
+func checkCase(c sortCase) (fw.Outcome, *fw.Violation) { return checkCaseExt(c, "", nil) }
+
+// checkCaseExt: pre is executed in the session before the query (session
+// flags); refRows, when given, are the cells the reference compares instead of
+// c.Rows (same shape; used when the meaning of a cell depends on the session).
+func checkCaseExt(c sortCase, pre string, refRows [][]val.Val) (fw.Outcome, *fw.Violation) {
 	o := fw.Outcome{}
 	addClass := func(s string) { o.Classes = append(o.Classes, s) }
 	n := len(c.Rows)
@@ -933,7 +938,11 @@ func checkCase(c sortCase) (fw.Outcome, *fw.Violation) {
 		addClass("no_order_by")
 	}
 
-	m := buildRef(c)
+	rc := c
+	if refRows != nil {
+		rc.Rows = refRows
+	}
+	m := buildRef(rc)
 	if m.bad {
 		o.Discard = true
 		return o, nil
@@ -960,6 +969,11 @@ func checkCase(c sortCase) (fw.Outcome, *fw.Violation) {
 		panic(err)
 	}
 	defer s.Close()
+	if pre != "" {
+		if r := s.Exec(pre); r.Err != nil {
+			return o, fw.V("setup_error", "%s: %v", pre, r.Err)
+		}
+	}
 	if c.Source == "view" {
 		if r := s.Exec(c.setupSQL()); r.Err != nil {
 			return o, fw.V("setup_error", "%s: %v", c.setupSQL(), r.Err)
@@ -1127,7 +1141,7 @@ func checkCase(c sortCase) (fw.Outcome, *fw.Violation) {
 	}
 	if len(c.Keys) > 0 {
 		k0 := c.Keys[0]
-		only := sortCase{Rows: c.Rows, IDs: c.IDs, Keys: []keyItem{k0}, Kinds: c.Kinds}
+		only := sortCase{Rows: rc.Rows, IDs: c.IDs, Keys: []keyItem{k0}, Kinds: c.Kinds}
 		m0 := buildRef(only)
 		if !m0.bad && n > 0 && m0.groupAt[n-1] < n-1 {
 			dupFirst = true
